@@ -4,10 +4,13 @@
   scale factors, the normal-form matrix) together with the body catalogue and the live search brackets; `Gen.C01` supplies the
   traced CR3BP field and Jacobian.  Polynomial certificates (cofactors of the two Vieta relations) were computed offline with
   sympy and are re-checked here by `linear_combination`.
-  Not formalised (measured by the harness): Brent root finding, LAPACK eigenvalues, the triangular normal form.
+  Triangular points (L4/L5): `triJhess`, `triS1sq`, `triS2sq`, `triS3`, `triC`, `a4`, `a5` are traced as well; section `Triangular`
+  (helper lemmas and the 36 + 36 certificates in `Lemmas/C04Tri.lean`).
+  Not formalised (measured by the harness): Brent root finding, LAPACK eigenvalues.
 -/
 import HitenModel.Gen.C04
 import HitenModel.Props.C01
+import HitenModel.Lemmas.C04Tri
 import Mathlib.Tactic.FieldSimp
 import Mathlib.Tactic.Ring
 import Mathlib.Tactic.LinearCombination
@@ -733,5 +736,192 @@ theorem catalogue_in_domain : catalogue.all pairGood = true ∧ catalogue.length
   constructor
   · decide +kernel
   · rfl
+
+/-! ### the triangular points L4 / L5 -/
+
+section Triangular
+open HitenModel.Lemmas.C04Tri
+
+/-- position of the code's coordinate number (layout `x, y, p_x, p_y | z, p_z` of `_J_hess_H2`) in the ordering
+`(x, y, z, p_x, p_y, p_z)` of `triS`, `triJ` -/
+def triPerm : ℕ → ℕ
+  | 0 => 0 | 1 => 1 | 2 => 3 | 3 => 4 | 4 => 2 | _ => 5
+
+theorem triJ_row (p : ℕ) (hp : p < 6) (f : ℕ → ℝ) :
+    ∑ k ∈ Finset.range 6, triJ p k * f k = if p < 3 then f (p + 3) else - f (p - 3) := by
+  interval_cases p <;> simp [Finset.sum_range_succ, triJ]
+
+/-- **tri_jhess_is_J_hess**: the traced `_J_hess_H2` of a triangular point is `J·Hess(H₂)` for
+`H₂ = ½(p_x²+p_y²+p_z²) + y p_x − x p_y + ⅛x² − a x y − ⅝y² + ½z²` (`triS a` is its Hessian: `triS_is_hessian`), entry by entry, in
+the code's layout (planar block first, vertical block last; `triPerm`). -/
+theorem tri_jhess_is_J_hess (ρ : ℕ → ℝ) (i j : ℕ) (hi : i < 6) (hj : j < 6) :
+    eval ρ (triJhess (6 * i + j)) = ∑ k ∈ Finset.range 6, triJ (triPerm i) k * triS (ρ 0) k (triPerm j) := by
+  rw [triJ_row _ (by interval_cases i <;> simp [triPerm])]
+  interval_cases i <;> interval_cases j <;> (simp [triJhess, eval, triS, triPerm]; try norm_num)
+
+/-- the planar block of the traced triangular `_J_hess_H2` (ordering x, y, p_x, p_y) -/
+noncomputable def triJp (ρ : ℕ → ℝ) : Matrix (Fin 4) (Fin 4) ℝ := fun i j => eval ρ (triJhess (6 * i.val + j.val))
+
+theorem triJp_eq (ρ : ℕ → ℝ) : triJp ρ = !![0, 1, 1, 0; -1, 0, 0, 1; -(1 / 4), ρ 0, 0, 1; ρ 0, 5 / 4, -1, 0] := by
+  ext i j; fin_cases i <;> fin_cases j <;> (simp [triJp, triJhess, eval]; try norm_num)
+
+/-- the vertical block is `[[0, 1], [-1, 0]]`: eigenvalues `±i`, `ω_z = 1` -/
+theorem tri_jhess_vertical_block (ρ : ℕ → ℝ) :
+    eval ρ (triJhess 28) = 0 ∧ eval ρ (triJhess 29) = 1 ∧ eval ρ (triJhess 34) = -1 ∧ eval ρ (triJhess 35) = 0 := by
+  refine ⟨?_, ?_, ?_, ?_⟩ <;> simp [triJhess, eval]
+
+/-- **tri_characteristic_equation** (Cayley–Hamilton form): the planar block satisfies `M⁴ + M² + (27/16 − a²) = 0`; hence every
+eigenvalue η of the linearised planar dynamics satisfies `η⁴ + η² + 27/16 − a² = 0`, i.e. `η = iω` with `ω⁴ − ω² + 27/16 − a² = 0`. -/
+theorem tri_characteristic_equation (ρ : ℕ → ℝ) :
+    (triJp ρ) ^ 4 + (triJp ρ) ^ 2 + (27 / 16 - ρ 0 ^ 2) • (1 : Matrix (Fin 4) (Fin 4) ℝ) = 0 := by
+  rw [triJp_eq ρ]
+  ext i j
+  fin_cases i <;> fin_cases j <;>
+    simp [pow_succ] <;> ring
+
+/-- for `ω₁² ≠ ω₂²`: both are roots of `ω⁴ − ω² + 27/16 − a²` exactly when the two Vieta relations used below hold -/
+theorem tri_vieta_iff (o1 o2 a : ℝ) (hne : o1 ^ 2 ≠ o2 ^ 2) :
+    (o1 ^ 4 - o1 ^ 2 + 27 / 16 - a ^ 2 = 0 ∧ o2 ^ 4 - o2 ^ 2 + 27 / 16 - a ^ 2 = 0) ↔
+      (o1 ^ 2 + o2 ^ 2 = 1 ∧ o1 ^ 2 * o2 ^ 2 = 27 / 16 - a ^ 2) := by
+  constructor
+  · rintro ⟨e1, e2⟩
+    have hsum : o1 ^ 2 + o2 ^ 2 = 1 := by
+      have hd : o1 ^ 2 - o2 ^ 2 ≠ 0 := sub_ne_zero.mpr hne
+      have : (o1 ^ 2 - o2 ^ 2) * (o1 ^ 2 + o2 ^ 2 - 1) = 0 := by linear_combination e1 - e2
+      rcases mul_eq_zero.mp this with h | h
+      · exact absurd h hd
+      · linarith
+    refine ⟨hsum, ?_⟩
+    linear_combination (o1 ^ 2) * hsum - e1
+  · rintro ⟨h1, h2⟩
+    constructor
+    · linear_combination (o1 ^ 2) * h1 - h2
+    · linear_combination (o2 ^ 2) * h1 - h2
+
+/-- the same as an identity of polynomials in η (no distinctness needed) -/
+theorem tri_vieta_iff_all_eta (o1 o2 a : ℝ) :
+    (∀ η : ℝ, (η ^ 2 + o1 ^ 2) * (η ^ 2 + o2 ^ 2) = η ^ 4 + η ^ 2 + (27 / 16 - a ^ 2)) ↔
+      (o1 ^ 2 + o2 ^ 2 = 1 ∧ o1 ^ 2 * o2 ^ 2 = 27 / 16 - a ^ 2) := by
+  constructor
+  · intro h
+    have h0 := h 0
+    have h1 := h 1
+    constructor <;> nlinarith [h0, h1]
+  · rintro ⟨h1, h2⟩ η
+    linear_combination (η ^ 2) * h1 + h2
+
+/-- the traced constant vertical scale factor -/
+theorem triS3_val : triS3 = (1, 1) ∧ ((triS3.1 : ℝ) / (triS3.2 : ℝ)) = 1 := ⟨rfl, by simp [triS3]⟩
+
+/-- entries of the traced triangular normal-form matrix, `triCent ρ k i = C[k][i]` (ordering x, y, z, p_x, p_y, p_z) -/
+noncomputable def triCent (ρ : ℕ → ℝ) (k i : ℕ) : ℝ := eval ρ (triC (6 * k + i))
+
+/-- the defining relations between the quantities `_build_normal_form` combines at a triangular point (variables 0 `a`, 1 `ω₁`,
+2 `ω₂`, 3 `ω_z`, 4 `s₁`, 5 `s₂`, 6 `s₃`): `ω₁²`, `ω₂²` the two roots of `t² − t + 27/16 − a²`, `ω_z = 1`, `s₁²`, `s₂²` the traced
+`d(ω₁)`, `d(ω₂)`, `s₃` the traced constant -/
+structure TriNFHyp (ρ : ℕ → ℝ) : Prop where
+  vieta1 : ρ 1 ^ 2 + ρ 2 ^ 2 = 1
+  vieta2 : ρ 1 ^ 2 * ρ 2 ^ 2 = 27 / 16 - ρ 0 ^ 2
+  wz : ρ 3 = 1
+  s1 : ρ 4 ^ 2 = eval ρ triS1sq
+  s2 : ρ 5 ^ 2 = eval ρ triS2sq
+  s3 : ρ 6 = (triS3.1 : ℝ) / (triS3.2 : ℝ)
+  s1_ne : ρ 4 ≠ 0
+  s2_ne : ρ 5 ≠ 0
+
+theorem triCtJC_factor (ρ : ℕ → ℝ) (i j : ℕ) (hi : i < 6) (hj : j < 6) :
+    (∑ k ∈ Finset.range 6, ∑ l ∈ Finset.range 6, triCent ρ k i * triJ k l * triCent ρ l j) =
+      triDcol (ρ 4) (ρ 5) (ρ 6) (Real.sqrt (ρ 3)) i * triDcol (ρ 4) (ρ 5) (ρ 6) (Real.sqrt (ρ 3)) j *
+        triSympl (ρ 0) (ρ 1) (ρ 2) i j := by
+  rw [sumJ_expand]
+  simp only [triCent, triSympl]
+  rw [triC_factor ρ 0 i (by norm_num) hi, triC_factor ρ 3 j (by norm_num) hj, triC_factor ρ 3 i (by norm_num) hi,
+    triC_factor ρ 0 j (by norm_num) hj, triC_factor ρ 1 i (by norm_num) hi, triC_factor ρ 4 j (by norm_num) hj,
+    triC_factor ρ 4 i (by norm_num) hi, triC_factor ρ 1 j (by norm_num) hj, triC_factor ρ 2 i (by norm_num) hi,
+    triC_factor ρ 5 j (by norm_num) hj, triC_factor ρ 5 i (by norm_num) hi, triC_factor ρ 2 j (by norm_num) hj]
+  ring
+
+theorem triCtSC_factor (ρ : ℕ → ℝ) (i j : ℕ) (hi : i < 6) (hj : j < 6) :
+    (∑ k ∈ Finset.range 6, ∑ l ∈ Finset.range 6, triCent ρ k i * triS (ρ 0) k l * triCent ρ l j) =
+      triDcol (ρ 4) (ρ 5) (ρ 6) (Real.sqrt (ρ 3)) i * triDcol (ρ 4) (ρ 5) (ρ 6) (Real.sqrt (ρ 3)) j *
+        triQuad (ρ 0) (ρ 1) (ρ 2) i j := by
+  rw [sumS_expand]
+  simp only [triCent, triQuad]
+  rw [triC_factor ρ 0 i (by norm_num) hi, triC_factor ρ 3 j (by norm_num) hj, triC_factor ρ 3 i (by norm_num) hi,
+    triC_factor ρ 0 j (by norm_num) hj, triC_factor ρ 1 i (by norm_num) hi, triC_factor ρ 4 j (by norm_num) hj,
+    triC_factor ρ 4 i (by norm_num) hi, triC_factor ρ 1 j (by norm_num) hj, triC_factor ρ 2 i (by norm_num) hi,
+    triC_factor ρ 5 j (by norm_num) hj, triC_factor ρ 5 i (by norm_num) hi, triC_factor ρ 2 j (by norm_num) hj]
+  ring
+
+/-- **tri_normal_form_symplectic_and_diagonalising**: for the traced `_build_normal_form` matrix `C` of a triangular point (ordering
+x, y, z, p_x, p_y, p_z), under the defining relations `TriNFHyp`: `CᵀJC = J` and `CᵀSC = T`, all 36 + 36 entries, where
+`S = Hess(H₂)` (`triS`, `triS_is_hessian`) and `T = diag(ω₁, ω₂, 1, ω₁, ω₂, 1)` is the Hessian of
+`ω₁/2(q₁²+p₁²) + ω₂/2(q₂²+p₂²) + ½(q₃²+p₃²)`. -/
+theorem tri_normal_form_symplectic_and_diagonalising (ρ : ℕ → ℝ) (h : TriNFHyp ρ) (i j : ℕ) (hi : i < 6) (hj : j < 6) :
+    (∑ k ∈ Finset.range 6, ∑ l ∈ Finset.range 6, triCent ρ k i * triJ k l * triCent ρ l j) = triJ i j ∧
+    (∑ k ∈ Finset.range 6, ∑ l ∈ Finset.range 6, triCent ρ k i * triS (ρ 0) k l * triCent ρ l j) =
+      triT (ρ 1) (ρ 2) i j := by
+  have hw : Real.sqrt (ρ 3) = 1 := by rw [h.wz, Real.sqrt_one]
+  have hs3 : ρ 6 = 1 := by rw [h.s3, triS3_val.2]
+  have hs1 := h.s1
+  have hs2 := h.s2
+  rw [(tri_scale_factors ρ).1] at hs1
+  rw [(tri_scale_factors ρ).2] at hs2
+  have h41 := h.s1_ne
+  have h51 := h.s2_ne
+  have key := triChat_symplectic_and_diagonalising _ _ _ h.vieta1 h.vieta2 i j hi hj
+  constructor
+  · rw [triCtJC_factor ρ i j hi hj, key.1, hw, hs3]
+    interval_cases i <;> interval_cases j <;> simp only [triDcol, triSymplTarget, triJ, mul_zero] <;> field_simp <;>
+      first | linear_combination hs1 | linear_combination hs2 | linear_combination (-1 : ℝ) * hs1
+            | linear_combination (-1 : ℝ) * hs2
+  · rw [triCtSC_factor ρ i j hi hj, key.2, hw, hs3]
+    interval_cases i <;> interval_cases j <;> simp only [triDcol, triQuadTarget, triT, mul_zero] <;> field_simp <;>
+      first | linear_combination (ρ 1) * hs1 | linear_combination (ρ 2) * hs2 | linear_combination (-(ρ 1)) * hs1
+            | linear_combination (-(ρ 2)) * hs2
+
+/-- non-vacuity: `TriNFHyp` is satisfiable — `ω₁ = √3/2`, `ω₂ = −1/2` (so `ω₁²ω₂² = 3/16`, `a = −√(3/2)`), `s₂ = ½`, `s₁ = √d(ω₁)`
+with `d(ω₁) = (3/8)√3 > 0` -/
+theorem triNFHyp_satisfiable : ∃ ρ : ℕ → ℝ, TriNFHyp ρ := by
+  have hr : Real.sqrt 3 ^ 2 = 3 := Real.sq_sqrt (by norm_num)
+  have ha : Real.sqrt (3 / 2) ^ 2 = 3 / 2 := Real.sq_sqrt (by norm_num)
+  have hd : triD (Real.sqrt 3 / 2) = 3 / 8 * Real.sqrt 3 := by
+    simp only [triD]
+    linear_combination (Real.sqrt 3 / 16 * (Real.sqrt 3 ^ 2 + 4)) * hr
+  have hdpos : 0 < triD (Real.sqrt 3 / 2) := by
+    rw [hd]; exact mul_pos (by norm_num) (Real.sqrt_pos.mpr (by norm_num))
+  refine ⟨fun k => match k with
+    | 0 => -Real.sqrt (3 / 2) | 1 => Real.sqrt 3 / 2 | 2 => -(1 / 2) | 3 => 1
+    | 4 => Real.sqrt (triD (Real.sqrt 3 / 2)) | 5 => 1 / 2 | 6 => 1 | _ => 0, ?_⟩
+  constructor
+  · show (Real.sqrt 3 / 2) ^ 2 + (-(1 / 2 : ℝ)) ^ 2 = 1
+    linear_combination (1 / 4 : ℝ) * hr
+  · show (Real.sqrt 3 / 2) ^ 2 * (-(1 / 2 : ℝ)) ^ 2 = 27 / 16 - (-Real.sqrt (3 / 2)) ^ 2
+    linear_combination (1 / 16 : ℝ) * hr + ha
+  · rfl
+  · rw [(tri_scale_factors _).1]
+    show Real.sqrt (triD (Real.sqrt 3 / 2)) ^ 2 = triD (Real.sqrt 3 / 2)
+    exact Real.sq_sqrt hdpos.le
+  · rw [(tri_scale_factors _).2]
+    show (1 / 2 : ℝ) ^ 2 = triD (-(1 / 2))
+    simp only [triD]; norm_num
+  · show (1 : ℝ) = _
+    exact triS3_val.2.symm
+  · show Real.sqrt (triD (Real.sqrt 3 / 2)) ≠ 0
+    exact (Real.sqrt_pos.mpr hdpos).ne'
+  · show (1 / 2 : ℝ) ≠ 0
+    norm_num
+
+/-- **a4_a5_relation**: the traced offsets of L4 and L5 are `a = ±c·(1 − 2μ)` with one float constant `c`, `c² = 27/16` up to
+`2⁻⁴⁴` (`c` is `3√3/4` as the code holds it) — so `a² = 27/16·(1 − 2μ)²` up to float rounding, and `a₅ = −a₄` exactly. -/
+theorem a4_a5_relation (ρ : ℕ → ℝ) :
+    let c : ℝ := 45705840067699 / 35184372088832
+    eval ρ a4 = c * (1 - 2 * ρ 0) ∧ eval ρ a5 = -eval ρ a4 ∧ |c ^ 2 - 27 / 16| ≤ 1 / 2 ^ 44 ∧ sign4 = 1 ∧ sign5 = -1 := by
+  intro c
+  refine ⟨by simp [a4, eval, c], by simp [a4, a5, eval]; ring, ?_, rfl, rfl⟩
+  rw [abs_le]
+  constructor <;> norm_num [c]
+
+end Triangular
 
 end HitenModel.Props.C04
